@@ -134,6 +134,9 @@ type Slot struct {
 	lastDiscSeen bool
 	heldAcks []*rc.Packet
 	faulted  bool // a write fault was injected on the current connection
+	stalled  bool // the connection currently refuses the broker's writes (backpressure)
+	maxOutPID uint16  // highest broker-assigned packet id seen on this connection
+	heldQ2   []uint16 // own QoS 2 publishes (runtime-chosen ids) whose PUBREL is withheld
 }
 
 type retainedEntry struct {
